@@ -212,4 +212,18 @@ theorem gen_headers :
        "binary.BigEndian.PutUint16(b[6:], uint16(u.Checksum))", "return b"] ∧
     Gen.MirrorFacts.udpSetLen = ["binary.BigEndian.PutUint16(b[4:], uint16(UDPHLen+n))"] := by decide
 
+/-- "never changes what is decoded": the decoding worker hands the mirror a **copy** of the datagram in
+its own pool buffer (`append(mirror.body[:0], msg.body...)`) and never blocks on the mirror queue
+(`select … default`); the mirror path therefore shares no octets with what is decoded (the decode side
+is C12's subject) -/
+theorem gen_hand_over :
+    Gen.MirrorFacts.ipfixHandOver =
+      ["mirror.body = ipfixBuffer.Get().([]byte)", "mirror.raddr = msg.raddr",
+       "mirror.body = append(mirror.body[:0], msg.body...)",
+       "select { case ipfixMCh <- mirror: default: }"] ∧
+    Gen.MirrorFacts.sflowHandOver =
+      ["mirror.raddr = msg.raddr", "mirror.body = sFlowBuffer.Get().([]byte)",
+       "mirror.body = append(mirror.body[:0], msg.body...)",
+       "select { case sFlowMCh <- mirror: default: }"] := by decide
+
 end Vflow.C16
